@@ -344,6 +344,16 @@ pub fn run(rng: &mut Rng, n: usize, rep: &mut Report) {
                             if paid != released {
                                 rep.fail(format!("C03 drift_withdraw paid the user {} tokens while the venue released {}", paid, released));
                             }
+                            // C20 / C03: what is paid out is at most the exact value of the scaled balance DEBITED FROM THE POSITION (not
+                            // of what the venue burned: if the two differ the difference comes out of the other depositors' balance)
+                            {
+                                let debited = BigInt::from(dsh >> 48);
+                                if debited > BigInt::from(0) && BigInt::from(paid) * &prec > &debited * &cum {
+                                    for tag in ["C20", "C03"] {
+                                        rep.fail(format!("{} drift_withdraw (all = {}) paid {} tokens while the position was debited {} scaled units whose exact value is {}: the conversion overstates what the position is worth", tag, all, paid, debited, &debited * &cum / &prec));
+                                    }
+                                }
+                            }
                             // never more than the exact value of the scaled balance given up
                             // (one corner is the venue's own rounding, not marginfi's: Drift's balance formula rounds a withdrawal UP only when
                             // the floored scaled amount is not zero, so a request worth less than one scaled unit costs no scaled balance
